@@ -298,6 +298,19 @@ func contentCases(g *Gen, sw *SockWorld, iw *InmemWorld, n int, stats map[string
 		for _, f := range chRI {
 			V("content-changed:response."+f, fmt.Sprintf("case=%d inmem response", i))
 		}
+		// nil versus empty in what the application RETURNS is not a cosmetic difference: core.commit copies the state hash
+		// and the receipts into Block.Body, whose JSON (hence the hash every validator signs) distinguishes null from "" / []:
+		// a node whose application is attached through the socket proxy must sign the same body as one with the same
+		// application in process
+		for _, f := range respOrder {
+			ret, s1, s2 := respFields(&resp)[f], respFields(&gotS)[f], respFields(&gotI)[f]
+			if ret != s1 && normTok(ret) == normTok(s1) {
+				V("content-changed:response."+f, fmt.Sprintf("case=%d socket response nil-versus-empty returned=[%s] received=[%s] (the signed block body differs)", i, ret, s1))
+			}
+			if ret != s2 && normTok(ret) == normTok(s2) {
+				V("content-changed:response."+f, fmt.Sprintf("case=%d inmem response nil-versus-empty returned=[%s] received=[%s]", i, ret, s2))
+			}
+		}
 		if hashes == "diff" && len(chS)+len(chI) == 0 {
 			V("content-changed:Hash", fmt.Sprintf("case=%d body hash sent=%s socket=%s inmem=%s", i, sentHash, hashS, hashI))
 		}
